@@ -330,6 +330,16 @@ def generate(template_path, src_root, out_path, vacuity=False):
             check_struct(src_root, d, lines[i + 1:i + 12])
             i += 1
             continue
+        if st.startswith('//@assume-lemma'):
+            d = parse_kv(st[len('//@assume-lemma'):])
+            src = open(os.path.join(tdir, d['file'])).read()
+            m = re.search(r'(?m)^pub proof fn ' + re.escape(d['name']) + r'\b.*?\n\{\n', src, re.S)
+            if not m:
+                raise GenError(f"assume-lemma: {d['name']} not found in {d['file']}")
+            sig = m.group(0)[:-2].rstrip()
+            segs.append([f"// ---- statement copied mechanically from {d['file']} (proved there, assumed here) ----\n#[verifier::external_body]\n{sig}\n{{ }}\n", None])
+            i += 1
+            continue
         if st.startswith('//@ringlemma'):
             d = parse_kv(st[len('//@ringlemma'):])
             try:
